@@ -287,8 +287,11 @@ func ByteMutate(t *rapid.T, p *Profile, doc []byte, label string) []byte {
 func docKind(t *rapid.T, p *Profile, maxTok int, label string) ([]byte, string) {
 	switch k := rapid.IntRange(0, 13).Draw(t, label+"kind"); {
 	case k == 13:
-		if rapid.IntRange(0, 2).Draw(t, label+"nl") == 0 { // rare: these documents are 1-8 KiB each
+		switch rapid.IntRange(0, 5).Draw(t, label+"nl") { // rare: these documents are 1-8 KiB each
+		case 0, 1:
 			return p.Repair(NearLimitDoc(t, label+"near")), "near-limit"
+		case 2:
+			return p.Repair(PathologicalDoc(t, p, label+"patho")), "pathological"
 		}
 		return Soup(t, p, maxTok, label+"soup"), "soup"
 	case k == 12:
